@@ -7,7 +7,7 @@
 (***************************************************************************)
 EXTENDS Codec, Universe, Json, IOUtils
 
-CONSTANTS ModIdx, PlanSet, Depth, MaxCompose, XerVals, ValCap, MaxFail
+CONSTANTS ModIdx, PlanSet, Depth, MaxCompose, XerVals, ValCap, MaxFail, LeafCap, MutDense
 TheNames == JsonDeserialize(IOEnv.VERIF_NAMES)
 TheMod == Modules[ModIdx]
 
@@ -89,10 +89,12 @@ AllStreams(n, v) ==
   {<<"DER", Enc("DER", TRef(n), v)>>, <<"OER", Enc("OER", TRef(n), v)>>, <<"UPER", Enc("UPER", TRef(n), v)>>}
   \cup (IF XerWritable(Env, TRef(n), v) THEN {<<"CXER", Ser(XerTokens(Env, n, TRef(n), v), "canon")>>} ELSE {})
 Byte(x) == x % 256
-Interesting(x) == {0, 1, 127, 128, 129, 255, Byte(x + 1), Byte(x + 255), Byte(x + 128)} \ {x}
-Positions(b) == IF Len(b) <= 10 THEN DOMAIN b ELSE (1..6) \cup ((Len(b) - 3)..Len(b))
+Interesting(x) == (IF MutDense THEN {0, 1, 127, 128, 129, 255, Byte(x + 1), Byte(x + 255), Byte(x + 128)}
+                   ELSE {0, 255, Byte(x + 1), Byte(x + 128)}) \ {x}
+Positions(b) == IF Len(b) <= 8 THEN DOMAIN b ELSE (1..5) \cup ((Len(b) - 2)..Len(b))
+TruncPoints(b) == IF Len(b) <= 24 \/ MutDense THEN 0..(Len(b) - 1) ELSE (0..8) \cup {Len(b) \div 2} \cup ((Len(b) - 6)..(Len(b) - 1))
 Mutations(b) ==
-  {<<"truncate", SubSeq(b, 1, k)>> : k \in 0..(Len(b) - 1)}
+  {<<"truncate", SubSeq(b, 1, k)>> : k \in TruncPoints(b)}
   \cup UNION {{<<"setbyte", [b EXCEPT ![i] = x]>> : x \in Interesting(b[i])} : i \in Positions(b)}
   \cup (IF Len(b) >= 2 THEN {<<"dup-tail", b \o SubSeq(b, Len(b) \div 2 + 1, Len(b))>>, <<"drop-byte", SubSeq(b, 1, Len(b) \div 2) \o SubSeq(b, Len(b) \div 2 + 2, Len(b))>>} ELSE {})
   \cup {<<"append-ff", b \o <<255, 255, 255, 255>>>>}
@@ -131,8 +133,8 @@ PlansFor(n, v) ==
 
 \* ValCap > 0 bounds the number of values per type (the heavier plan sets)
 \* (leaf types keep all their boundary values)
-ValuesOf(n) == IF ValCap = 0 \/ Resolve(RawEnv, TRef(n)).k \notin {"SEQUENCE", "SET", "SEQOF", "SETOF"} THEN Values(RawEnv, TRef(n), Depth)
-               ELSE Take(Values(RawEnv, TRef(n), Depth), ValCap)
+ValuesOf(n) == LET cap == IF Resolve(RawEnv, TRef(n)).k \in {"SEQUENCE", "SET", "SEQOF", "SETOF"} THEN ValCap ELSE LeafCap
+               IN IF cap = 0 THEN Values(RawEnv, TRef(n), Depth) ELSE Take(Values(RawEnv, TRef(n), Depth), cap)
 Init == \E n \in TypeNames : \E v \in ValuesOf(n) : \E p \in PlansFor(n, v) :
           InitSession([ty |-> n, val |-> v, plan |-> p])
 Next == Step(GenObs)
